@@ -20,7 +20,7 @@ RULE = ('Hypothesis-generated function bodies (ordinary / you / defeat flavour; 
         'preempt blocks, returns, !is_defeat(), !truth_is_defeat, calls of user defeat functions (as statements and inside '
         'expressions), all_is_win(), all_is_broken(), user overloads that share those names but return, try/undo, try/stop, '
         'preempt; print probes after every construct. '
-        'Each function is followed in the output by a tell-tale function and is called on several argument vectors. '
+        'Each function is followed in the output by a tell-tale function and is called on several argument vectors; in a quarter of the cases @is_you also calls itself once (a nested activation of the entry point must return to its caller). '
         'Oracles: (i) accepted programs: a replay monitor flags any sequential flow from the code of one function into the '
         'first instruction of another, and the committed event stream must equal the reference interpreter\'s (dropped code '
         'was unreachable, reachable code was kept); (ii) witness rule: if on any tried input the reference finds the body '
@@ -247,7 +247,14 @@ def function_case(draw):
     else:
         main_body = shown
     guard_tell = If(Bin('==', a, Lit('int', -12345, None, t=INT), t=BOOL), Block([tell]), None)
-    main = Func(EMPTY, '@is_you', params, Block(main_body + [guard_tell, ExprStmt(Call('write', [Lit('char', 69, None, t=BYTE)], t=EMPTY))]))
+    reenter = []
+    if draw(st.integers(0, 3)) == 0:
+        # @is_you is an ordinary you-function too: a nested activation must return to its caller like any other call
+        reenter = [If(Bin('==', a, Lit('int', 3, None, t=INT), t=BOOL),
+                      Block([ExprStmt(Call('write', [Lit('char', 91, None, t=BYTE)], t=EMPTY)),
+                             ExprStmt(Call('@is_you', [Bin('-', a, Lit('int', 2, None, t=INT), t=INT), b], t=EMPTY)),
+                             ExprStmt(Call('write', [Lit('char', 93, None, t=BYTE)], t=EMPTY))]), None)]
+    main = Func(EMPTY, '@is_you', params, Block(reenter + main_body + [guard_tell, ExprStmt(Call('write', [Lit('char', 69, None, t=BYTE)], t=EMPTY))]))
     telltale = Func(EMPTY, 'zz_telltale', [], Block([ExprStmt(Call('write', [Lit('string', b'TELLTALE', None, t=STRING)], t=EMPTY))]))
     dh = Func(INT, '!dh', [Param(INT, False, 'x')], Block([
         ExprStmt(Call('write', [Lit('string', b'<dh>', None, t=STRING)], t=EMPTY)),
